@@ -585,6 +585,7 @@ func (e *Ev) freshResults(sig *types.Signature, hint string) Term {
 		nm := e.g().freshName("r$" + sanitize(hint))
 		e.st.declare(nm, rs)
 		results = append(results, Term{S: nm, Sort: rs, T: rt, Signed: isSigned(rt)})
+		e.wfSlice(results[len(results)-1])
 	}
 	switch len(results) {
 	case 0:
